@@ -66,17 +66,33 @@ def referrers (db : DB) (k f : Nat) (owner : Nat) : List Nat :=
 /-- `SingleJoin` -/
 def single (db : DB) (k f : Nat) (owner : Nat) : Option Nat := (referrers db k f owner).head?
 
-/-- `RelatedJoin` / `SQLRelatedJoin` of the side whose id is in column `ownFirst` -/
+open SqlObjVerif.Extracted.Graph (JCol JVal addPairs removeConds joinSelect)
+
+def _root_.SqlObjVerif.Extracted.Graph.JVal.get (inst other : Nat) : JVal → Nat
+  | .instId => inst
+  | .otherId => other
+
+/-- the value a statement's (column, value) list gives to a physical column (`first` = column `a`) -/
+def colValue (ps : List (JCol × JVal)) (ownFirst : Bool) (inst other : Nat) (first : Bool) : Nat :=
+  match ps.find? fun p => p.1.first ownFirst == first with
+  | some p => p.2.get inst other
+  | none => 0
+
+/-- `RelatedJoin` / `SQLRelatedJoin` of the side whose id is in column `ownFirst`: the **extracted**
+    `_SO_intermediateJoin` statement as `performJoin` calls it -/
 def related (db : DB) (t : Nat) (ownFirst : Bool) (owner : Nat) : List Nat :=
-  (db.links.filter fun l => l.table == t && l.col ownFirst == owner).map (·.col (!ownFirst))
+  (db.links.filter fun l => l.table == t && l.col (joinSelect.2.1.first ownFirst) == joinSelect.2.2.get owner 0).map
+    (·.col (joinSelect.1.first ownFirst))
 
-/-- `_SO_intermediateInsert(table, joinColumn, inst.id, otherColumn, other.id)` -/
+/-- `add`: the **extracted** `_SO_intermediateInsert` statement as `SORelatedJoin.add` calls it -/
 def addLink (db : DB) (t : Nat) (ownFirst : Bool) (owner other : Nat) : DB :=
-  { db with links := db.links ++ [if ownFirst then ⟨t, owner, other⟩ else ⟨t, other, owner⟩] }
+  { db with links := db.links ++
+      [⟨t, colValue addPairs ownFirst owner other true, colValue addPairs ownFirst owner other false⟩] }
 
-/-- `_SO_intermediateDelete`: `DELETE … WHERE joinColumn = inst.id AND otherColumn = other.id` -/
+/-- `remove`: the **extracted** `_SO_intermediateDelete` statement as `SORelatedJoin.remove` calls it -/
 def removeLink (db : DB) (t : Nat) (ownFirst : Bool) (owner other : Nat) : DB :=
-  { db with links := db.links.filter fun l => !(l.table == t && l.col ownFirst == owner && l.col (!ownFirst) == other) }
+  { db with links := db.links.filter fun l =>
+      !(l.table == t && removeConds.all fun p => l.col (p.1.first ownFirst) == p.2.get owner other) }
 
 /-- the list-flavoured accessors with the join's `orderBy` applied (`_applyOrderBy`) -/
 def multipleJoin (val : Nat → Nat → Option Int) (db : DB) (k f : Nat) (ks : List SortKey) (owner : Nat) : List Nat :=
